@@ -9,7 +9,7 @@ from ..selftest import Mutant
 
 ID = "C45"
 TECHNIQUE = "table check of _eol_filter_stack_map against the key naming scheme (K6), CFG guard of the binary (NUL) branch in both converters (K2), reader/writer application order (K1) (ast)"
-FLOOR = 16
+FLOOR = 22
 EF = "breezy/filters/eol.py"
 FI = "breezy/filters/__init__.py"
 EXPLANATION = """
